@@ -268,6 +268,15 @@ def padding(repo, rule):
     m_ = P.sym("m")
     n_ = P.sym("n")
     env = {"t - 1": m_, "t": m_ + 1}
+    # module-level names for the rate (RATE = t - 1), bound once
+    mod_ = repo.module(PH)
+    for s in mod_.tree.body:
+        if isinstance(s, ast.Assign) and len(s.targets) == 1 and isinstance(s.targets[0], ast.Name) and s.targets[0].id != "t":
+            nm_ = s.targets[0].id
+            nst = sum(1 for x in ast.walk(mod_.tree) if isinstance(x, ast.Name) and x.id == nm_ and not isinstance(x.ctx, ast.Load))
+            pv_ = poly_of(s.value, env, strict=True) if not isinstance(s.value, (ast.List, ast.Call, ast.Constant, ast.Dict, ast.Tuple)) else None
+            if pv_ is not None and nst == 1:
+                env[nm_] = pv_
     msgname = None
     found = None
     where = fi.loc()
@@ -380,6 +389,20 @@ def sponge_absorb(repo, rule):
     sponge[0] is carried over unchanged into the permutation, the state is permuted once per block, the digest is read
     from the rate part."""
     fi = repo.fn(PH, "poseidon_hash")
+    # the state belongs to one hash computation: no helper class of the module keeps it in a class attribute (shared by every
+    # instance, so the second hash would start from the state the first one ended in)
+    for ci in repo.module(PH).classes.values():
+        for nm_, val_ in sorted(ci.attrs.items()):
+            mut = isinstance(val_, (ast.List, ast.Dict, ast.Set, ast.ListComp, ast.Call)) or (
+                isinstance(val_, ast.BinOp) and any(isinstance(x, ast.List) for x in ast.walk(val_)))
+            touched = [a for mi in ci.methods.values() for a in ast.walk(mi.node) if isinstance(a, ast.Attribute) and a.attr == nm_
+                       and isinstance(a.value, ast.Name) and mi.params and a.value.id == mi.params[0]]
+            own = any(isinstance(s_, ast.Assign) and any(isinstance(t_, ast.Attribute) and t_.attr == nm_ for t_ in s_.targets)
+                      for mi in [ci.methods.get("__init__")] if mi is not None for s_ in mi.node.body)
+            if mut and touched and not own:
+                rule.violation("%s:%d" % (repo.module(PH).relpath, getattr(val_, "lineno", 1)), ci.fq, "%s.%s = %s" % (ci.name, nm_, norm(val_)[:60]),
+                               "sponge state is kept in a class attribute: it is shared by all instances, so a hash starts from "
+                               "the state the previous one left behind instead of the all-zero state", "sponge/shared-state/%s" % nm_)
     loops = [s for s in fi.node.body if isinstance(s, ast.For)]
     lp = None
     for s in loops:
